@@ -129,7 +129,8 @@ def laneReader : List String → String
           | none => .error (.err 99)
       let C := bufferedCodec openRes
       let src : Src := ⟨[], .eof⟩
-      let limit : Nat := if ca < 0 then out.length + 8 else ca.toNat
+      -- zero-length reads make no progress: allow a whole cycle of sizes per byte
+      let limit : Nat := if ca < 0 then (out.length + 8) * sizes.length else ca.toNat
       let render (data : Bytes) (t : Option Term) (after : List (Bytes × Option Term)) : String :=
         "data=" ++ (if ca > 0 then (if data.isPrefixOf out then "prefix" else "notprefix")
           else match t with
